@@ -21,6 +21,9 @@ import (
 	"fmt"
 	"sort"
 	"strings"
+	"sync"
+	"sync/atomic"
+	"time"
 
 	"github.com/nspcc-dev/neo-go/pkg/vm"
 	"github.com/nspcc-dev/neo-go/pkg/vm/opcode"
@@ -535,6 +538,7 @@ func build(seq []uint8) (script []byte, mark int, body *prog) {
 }
 
 type deepOut struct {
+	completeDepth                         int // all sequences up to this length were executed
 	states, programs, faulted, markMissed int
 	shared, cyclic, inCall, inTry         int
 	levelSizes, levelCands                []int
@@ -632,7 +636,59 @@ func alphabetMask(names []string) (m mask) {
 	return
 }
 
-func deepPart(s *stats, L int, allowed mask, witnesses bool) (out deepOut) {
+// sched decides when a pass has to stop. The mandatory passes use the run's
+// deadline (hitting it marks the run as not exhaustive); the optional
+// deepening passes of the thorough tier have a soft deadline of their own and
+// never mark the run: the stated bounds are those of the mandatory passes.
+type sched struct {
+	r    *vk.Run
+	soft time.Time // zero: mandatory pass
+	hit  atomic.Bool
+}
+
+func (sc *sched) expired() bool {
+	if sc.soft.IsZero() {
+		return sc.r.Expired()
+	}
+	if sc.hit.Load() || time.Now().After(sc.soft) {
+		sc.hit.Store(true)
+		return true
+	}
+	return false
+}
+
+func (sc *sched) stopped() bool {
+	if sc.soft.IsZero() {
+		return sc.r.IsCapped()
+	}
+	return sc.hit.Load()
+}
+
+func (sc *sched) parallel(n int, f func(i int)) int {
+	if sc.soft.IsZero() {
+		return sc.r.Parallel(n, f)
+	}
+	var next, done atomic.Int64
+	var wg sync.WaitGroup
+	for k := 0; k < min(sc.r.Workers(), n); k++ {
+		wg.Add(1)
+		go func() {
+			defer wg.Done()
+			for {
+				i := int(next.Add(1) - 1)
+				if i >= n || sc.expired() {
+					return
+				}
+				f(i)
+				done.Add(1)
+			}
+		}()
+	}
+	wg.Wait()
+	return int(done.Load())
+}
+
+func deepPart(s *stats, sc *sched, L int, allowed mask, witnesses bool) (out deepOut) {
 	r := s.r
 	out.witness = map[string]string{}
 	seen := map[[16]byte]struct{}{}
@@ -656,14 +712,14 @@ func deepPart(s *stats, L int, allowed mask, witnesses bool) (out deepOut) {
 			part := frontier[lo:min(lo+chunk, len(frontier))]
 			results := make([][]cand, len(part))
 			var execd vk.Counter
-			done := r.Parallel(len(part), func(i int) {
+			done := sc.parallel(len(part), func(i int) {
 				w := newWalker()
 				n := part[i]
 				for m := range macros {
 					if !n.m.has(m) || !allowed.has(m) {
 						continue
 					}
-					if m%8 == 0 && r.Expired() {
+					if m%8 == 0 && sc.expired() {
 						break
 					}
 					seq := append(n.seq.unpack(1), uint8(m))
@@ -676,7 +732,7 @@ func deepPart(s *stats, L int, allowed mask, witnesses bool) (out deepOut) {
 				s.merge(w)
 			})
 			cands += int(execd.Get())
-			if done < len(part) || r.IsCapped() {
+			if done < len(part) || sc.stopped() {
 				complete = false
 			}
 			if last {
@@ -711,6 +767,9 @@ func deepPart(s *stats, L int, allowed mask, witnesses bool) (out deepOut) {
 		}
 		out.programs += cands
 		out.levelCands = append(out.levelCands, cands)
+		if complete {
+			out.completeDepth = d
+		}
 		if !complete || last {
 			break
 		}
